@@ -31,8 +31,17 @@ IMPORTS = {
     "apps/app1/helper.py": [("import pkg", ["modules.pkg"])],
     "modules/m1.py": [("import pkg", ["modules.pkg"])],
     "modules/pkg/__init__.py": [("from . import sub", ["modules.pkg.sub"])],
-    "modules/pkg/sub.py": [],
+    "modules/pkg/sub.py": [("import m1", ["modules.m1"])],
 }
+
+
+def no_cycle(path, imports, files_imports):
+    """m1 -> pkg and pkg.sub -> m1 must not both be present."""
+    sub_imports_m1 = bool(files_imports.get("modules/pkg/sub.py")) if path != "modules/pkg/sub.py" else bool(imports)
+    m1_imports_pkg = bool(files_imports.get("modules/m1.py")) if path != "modules/m1.py" else bool(imports)
+    if sub_imports_m1 and m1_imports_pkg:
+        return []
+    return imports
 
 
 def source(path, gen, imports):
@@ -178,10 +187,13 @@ def gen(R):
     paths = list(FILES)
     initial = {}
     g = 0
+    cur_imports = {}
     for p in paths:
         if R.bool(2, 3):
             g += 1
-            initial[p] = {"gen": g, "imports": [i for i in range(len(IMPORTS[p])) if R.bool(1, 2)]}
+            imps = no_cycle(p, [i for i in range(len(IMPORTS[p])) if R.bool(1, 2)], cur_imports)
+            cur_imports[p] = imps
+            initial[p] = {"gen": g, "imports": imps}
     app_conf = R.choice([None, {"x": 1}, {"x": 1}])
     ops = []
     for _ in range(R.int(2, 10)):
@@ -189,7 +201,9 @@ def gen(R):
         p = R.choice(paths)
         if k in ("modify", "create"):
             g += 1
-            ops.append({"op": k, "path": p, "gen": g, "imports": [i for i in range(len(IMPORTS[p])) if R.bool(1, 2)]})
+            imps = no_cycle(p, [i for i in range(len(IMPORTS[p])) if R.bool(1, 2)], cur_imports)
+            cur_imports[p] = imps
+            ops.append({"op": k, "path": p, "gen": g, "imports": imps})
         elif k in ("touch", "delete", "comment", "uncomment"):
             ops.append({"op": k, "path": p})
         elif k == "appconf":
